@@ -22,4 +22,5 @@ def run(F, X, rep):
     H.u3_reject_before_add(C, rep, "C07-U3")
     H.p4b_answer_only_via_lifecycle(C, rep, "C07-U3")
     H.u5_no_individual_rejection(C, rep, "C07-U5")
+    H.q_request_fields_verbatim(C, rep, "C07-Q")
     R.u4_fail_arm_forwards(C, rep, "C07-U4")
